@@ -6,6 +6,7 @@ ASSUMPTIONS = [
     "A2: jitutils.random_choice / NumPy RNG draw with the stated distribution; RNG streams are a deterministic function of the seed",
     "A3: numba nopython semantics coincide with the Python semantics of the verified subset; int64 wrap-around, dtype narrowing and unchecked indexing are excluded by obligations rather than modelled",
     "A4: the modelled NumPy/math surface (pyvc/externals.py) is an assumed contract on dependencies (listed under trusted_base when used)",
+    "A7: every array axis has at most 2^48 entries (so index arithmetic on lengths cannot overflow int64)",
     "A6: detailed balance of each move implies stationarity of their mixture/composition; invariance under transpositions implies invariance under permutations (mathematics outside the verifier)",
     "TCB: CPython ast, pyvc (VC generator; validated by the seeded-change runs in DESIGN.md), z3 %s" % z3.get_version_string(),
 ]
